@@ -73,8 +73,52 @@ fn scenario(n: u32) -> Vec<(Vec<&'static str>, Cfg)> {
     }
 }
 
+/// Scenario 4: one builder, cloned; the clones travel to two threads, diverge in their settings and are built
+/// concurrently (twice each); the original is built afterwards on the main thread. All must equal fresh builds.
+fn clone_scenario() -> bool {
+    let cases = ["Ab", "ab", "a1", "b22"];
+    let mut original = RegExpBuilder::from(&cases);
+    original.with_conversion_of_digits();
+    let mut c1 = original.clone();
+    let mut c2 = original.clone();
+    let barrier = Arc::new(Barrier::new(2));
+    let (b1, b2) = (barrier.clone(), barrier.clone());
+    let t1 = thread::spawn(move || {
+        b1.wait();
+        c1.with_case_insensitive_matching();
+        let x = c1.build();
+        (x, c1.build())
+    });
+    let t2 = thread::spawn(move || {
+        b2.wait();
+        c2.with_conversion_of_repetitions();
+        let x = c2.build();
+        (x, c2.build())
+    });
+    let r1 = t1.join().expect("clone thread 1 panicked");
+    let r2 = t2.join().expect("clone thread 2 panicked");
+    let r0 = original.build();
+    let d = Cfg { digits: true, ..NONE };
+    let e1 = build(&cases, Cfg { ignore_case: true, ..d });
+    let e2 = build(&cases, Cfg { repetitions: true, ..d });
+    let e0 = build(&cases, d);
+    let ok = r1.0 == e1 && r1.1 == e1 && r2.0 == e2 && r2.1 == e2 && r0 == e0;
+    if ok {
+        println!("OK scenario=4 results={:?}", [r0, r1.0, r2.0]);
+    } else {
+        println!("MISMATCH scenario=4 got {:?} {:?} {:?} expected {:?} {:?} {:?}", r0, r1, r2, e0, e1, e2);
+    }
+    ok
+}
+
 fn main() {
     let n: u32 = std::env::args().nth(1).and_then(|s| s.parse().ok()).unwrap_or(0);
+    if n == 4 {
+        if !clone_scenario() {
+            std::process::exit(1);
+        }
+        return;
+    }
     let jobs = scenario(n);
     let barrier = Arc::new(Barrier::new(jobs.len()));
     let mut handles = vec![];
